@@ -5,6 +5,7 @@ import CookModel.Lemmas.ParsedScaled
 import CookModel.Lemmas.BindingsParsed
 import CookModel.Props.C07
 import CookModel.Props.C11
+import CookModel.Lemmas.PackParsed
 /-
   C19  The FFI view mirrors the core recipe and combines amounts faithfully.
 
@@ -694,5 +695,40 @@ example : derefTimer (intoSimpleRecipe exRecipe) 1 = .error (.unwrapNone "deref_
 example : extractAmountQ (α := Rat) ⟨.number (.fraction 1 1 2 0), some "cup".toList⟩ = ⟨.number (3/2), some "cup".toList⟩ := by
   decide +kernel
 end Ffi
+
+-- ===== w7c15nan =====
+/-- the entries of the core metadata map of a parsed recipe WITHOUT front matter, as the bindings see them: every
+    `>>` entry is a pair of YAML strings -/
+def C19_parsedEntries {α} (c : Col α) : List MetaEntry := c.metaMap.map (fun p => ⟨some p.1, some p.2⟩)
+
+/-- **The metadata mirror law holds for every parsed recipe** (document without front matter): the keys of the
+    collector's map are pairwise distinct (`metaInsert` replaces in place), so the hypothesis of
+    `C19_metadata_mirror` is a theorem — the view has under `k` the value `v` exactly when the recipe's map has the
+    entry `k: v`, and its keys are exactly the keys of the map. -/
+theorem C19_metadata_mirror_parsed {α} [Arith α] (env : Env) (input : Str) (c : Col α)
+    (h : (parseRecipe (α := α) env input).output = some c) (k v : Str) :
+    ((stringEntries (C19_parsedEntries c)).map Prod.fst).Nodup ∧
+    (AList.get (intoMetadata (C19_parsedEntries c)) k = some v ↔ (k, v) ∈ c.metaMap) ∧
+    (k ∈ AList.keys (intoMetadata (C19_parsedEntries c)) ↔ ∃ v', (k, v') ∈ c.metaMap) := by
+  have hse : stringEntries (C19_parsedEntries c) = c.metaMap := by
+    unfold stringEntries C19_parsedEntries
+    induction c.metaMap with
+    | nil => rfl
+    | cons p t ih => rw [List.map_cons, List.filterMap_cons, ih]
+  have hnd : ((stringEntries (C19_parsedEntries c)).map Prod.fst).Nodup := by
+    rw [hse]; exact pk_parseRecipe_nodup env input c h
+  have hmem : ∀ k v, (⟨some k, some v⟩ : MetaEntry) ∈ C19_parsedEntries c ↔ (k, v) ∈ c.metaMap := by
+    intro k v
+    simp only [C19_parsedEntries, List.mem_map, MetaEntry.mk.injEq, Option.some.injEq]
+    constructor
+    · rintro ⟨p, hp, rfl, rfl⟩; exact hp
+    · intro hp; exact ⟨(k, v), hp, rfl, rfl⟩
+  have hm := C19_metadata_mirror (C19_parsedEntries c) hnd k v
+  refine ⟨hnd, by rw [hm.1, hmem], ?_⟩
+  rw [hm.2]
+  constructor
+  · rintro ⟨v', hv'⟩; exact ⟨v', (hmem k v').mp hv'⟩
+  · rintro ⟨v', hv'⟩; exact ⟨v', (hmem k v').mpr hv'⟩
+-- ===== end w7c15nan =====
 
 end Cook
